@@ -190,6 +190,7 @@ type multiRun struct{ c *ctx }
 
 func (x *multiRun) do(op string) string {
 	w := strings.Fields(op)
+	x.c.begin(op)
 	out := guard(func() string {
 		switch w[0] {
 		case "reset":
@@ -286,7 +287,7 @@ func (x *multiRun) do(op string) string {
 		}
 		return "bad-op"
 	})
-	x.c.emit(op, out)
+	x.c.finish(op, out)
 	return out
 }
 
